@@ -12,6 +12,12 @@ def signature(name):
         return f
     return deco
 
+@signature('empty_intersection_intersect_indexerror')
+def _f17_c19(case, details):
+    """F17: many2sql.intersect() on structures with NO common atom raises IndexError (read_pdb indexes pdbfile[0])"""
+    return details.get('why') == 'intersect() raised' and list(details.get('got', []))[1:2] == ['IndexError'] \
+        and details.get('empty_intersection') is True
+
 def match(prop, mismatch, active):
     for k in active:
         f = SIGNATURES.get(k['signature'])
